@@ -152,6 +152,41 @@ pub fn argv_from_index(mut i: usize) -> Argv {
     Argv { toks, env_keyring }
 }
 
+/// Untrusted strings in the places a path is expected (keyring location by option or variable, input FILE, -o target)
+/// on an otherwise complete command line, under a sparse or odd environment (HOME unset / empty / not UTF-8 / valid).
+#[derive(Clone, Debug, Serialize, Deserialize)]
+pub struct Loc { pub loc: Vec<u8>, pub place: u8, pub home: u8, pub cmd: u8 }
+pub fn loc_dictionary() -> Vec<Vec<u8>> {
+    let mut v: Vec<Vec<u8>> = ["~", "~/keys.txt", "~/", "~root/keys.txt", "~nobody", "$HOME/keys.txt", "", ".", "..", "/", "//", "keys.txt/", "./keys.txt", "dir", "dir/", "/dev/null", "/dev/zero", "/dev/full", "/proc/self/mem", "/proc/self/environ", "/dev/stdin", "-", "--", "%s%n", "keys.txt\u{0}", "file:///keys.txt", "C:\\keys.txt", "*", "?", "{a,b}", "`id`", "$(id)", " keys.txt", "keys.txt ", "é/ü.txt", "\u{202e}txt.syek"].iter().map(|s| s.replace("\u{0}", "").as_bytes().to_vec()).collect();
+    v.push(vec![0xff, 0xfe, b'/', b'k']); v.push(vec![b'~', b'/', 0xff]); v.push("a/".repeat(2100).into_bytes()); v.push("k".repeat(300).into_bytes()); v.push(vec![b'~'; 5000]);
+    v
+}
+pub fn check_loc(l: &Loc) -> CheckResult {
+    use std::os::unix::ffi::OsStringExt;
+    let id = super::c13::ids(); let sb = Sandbox::new();
+    sb.write("file.txt", b"some file content"); sb.write("keys.txt", cli::keyring_text(&[(&id.alice, true), (&id.bob, true)]).as_bytes()); let _ = std::fs::create_dir(sb.path("dir")); let _ = std::fs::create_dir(sb.path("home")); sb.write("home/keys.txt", cli::keyring_text(&[(&id.alice, true), (&id.bob, true)]).as_bytes());
+    let ct = crate::kx::key_encrypt_simple(b"some file content", &crate::kx::Ident { sk: id.alice.sk, pk: id.alice.pk }, &id.bob.pk, None, None)?; sb.write("file.ktl", &ct);
+    let loc = OsString::from_vec(l.loc.clone());
+    let decrypt = l.cmd % 2 == 1;
+    let mut a: Vec<OsString> = if decrypt { cli::args(&["decrypt", "-t", "bob", "--env-pass"]) } else { cli::args(&["encrypt", "-t", "bob", "-f", "alice", "--env-pass"]) };
+    let (mut file, mut out, mut kr): (OsString, OsString, Option<OsString>) = (if decrypt { "file.ktl".into() } else { "file.txt".into() }, "out.bin".into(), Some("keys.txt".into()));
+    let mut env_kr: Option<OsString> = None;
+    match l.place % 4 { 0 => kr = Some(loc.clone()), 1 => { kr = None; env_kr = Some(loc.clone()); } 2 => file = loc.clone(), _ => out = loc.clone() }
+    a.push(file); a.push("-o".into()); a.push(out); if let Some(k) = kr { a.push("-k".into()); a.push(k); }
+    let mut cmd = sb.cmd(&[]); cmd.args = a; cmd.timeout_ms = 20_000; cmd.stdin = crate::cli::In::Bytes(b"stdin data".to_vec());
+    cmd.env.push(("KESTREL_PASSWORD".into(), if decrypt { id.bob.password.clone() } else { id.alice.password.clone() }));
+    if let Some(k) = env_kr { if !l.loc.contains(&0) { cmd.env_os.push(("KESTREL_KEYRING".into(), k.into_vec())); } }
+    match l.home % 4 { 1 => cmd.env.push(("HOME".into(), sb.path("home").to_string_lossy().into_owned())), 2 => cmd.env_os.push(("HOME".into(), vec![b'/', 0xff, 0xfe])), 3 => cmd.env.push(("HOME".into(), String::new())), _ => {} }
+    // an endless input would only fill the scratch file system until the timeout
+    // endless devices as something to READ are not byte strings: the statement quantifies over finite inputs
+    if l.loc.contains(&0) || (l.place % 4 != 3 && (l.loc.ends_with(b"/dev/zero") || l.loc.ends_with(b"/dev/full") || l.loc.ends_with(b"random"))) { return ok(false, "skipped"); }
+    let r = cmd.run();
+    ensure!(!r.timed_out, "the tool did not terminate for argv {:?} (HOME variant {})", cmd.args, l.home % 4);
+    ensure!(r.signal.is_none() && matches!(r.code, Some(0) | Some(1)), "the tool ended abnormally (exit {:?}, signal {:?}) for argv {:?} with HOME {}: {}", r.code, r.signal, cmd.args, ["unset", "valid", "not UTF-8", "empty"][(l.home % 4) as usize], r.stderr_s().chars().take(300).collect::<String>());
+    if r.code == Some(1) { ensure!(r.stderr_s().lines().any(|x| x.starts_with("Error:")), "exit status 1 without an 'Error:' line for argv {:?}: {:?}", cmd.args, r.stderr_s()); }
+    ok(true, format!("location/{}/exit{}", ["-k", "KESTREL_KEYRING", "FILE", "-o"][(l.place % 4) as usize], r.code.unwrap_or(-1)))
+}
+
 #[derive(Clone, Debug, Serialize, Deserialize)]
 pub struct KeyArg { pub s: String, pub cmd: u8 }
 pub fn check_keyarg(k: &KeyArg) -> CheckResult {
@@ -175,7 +210,7 @@ pub fn check_mutant(c: &MCase) -> CheckResult { let (p, _f, res, _sh, _) = mutat
 pub struct Text { pub t: String }
 
 pub fn run(ctx: &Ctx) {
-    set_rule("C09", "per surface: encrypted file -> key_decrypt / chunk loop (every length 0..600 of zeros, 0xFF, random, prefixes of an authentic file; the C03 mutation programs; hostile length/flag fields after 0..3 authentic 64 KiB records); handshake message -> noise_decrypt (every length 0..300 and 65535/65536/70000 of random bytes, authentic prefixes, authentic message + extension); AEAD ciphertext -> chapoly_decrypt_ietf (every length 0..200); encoded keys -> EncodedPk/EncodedSk::try_from, decode_public_key, unlock_private_key (every length 0..130 over several alphabets, near-valid strings); keyring text -> Keyring::new; argument vectors -> the binary (every sequence of <= 3 tokens over a 30-token vocabulary incl. empty and non-UTF-8 arguments, random sequences up to 8). Oracles: every call returns (a panic is caught and reported with message and location); the binary exits 0 or 1 without a signal, 1 with an 'Error:' line; hostile header fields raise neither peak heap, nor the largest allocation, nor the bytes pulled from the source, nor the number of scrypt-sized allocations above the honest case + 64 KiB. Non-trivial = input neither empty nor fully valid for its surface; distinct by enumeration index / hash of the case");
+    set_rule("C09", "per surface: encrypted file -> key_decrypt / chunk loop (every length 0..600 of zeros, 0xFF, random, prefixes of an authentic file; the C03 mutation programs; hostile length/flag fields after 0..3 authentic 64 KiB records); handshake message -> noise_decrypt (every length 0..300 and 65535/65536/70000 of random bytes, authentic prefixes, authentic message + extension); AEAD ciphertext -> chapoly_decrypt_ietf (every length 0..200); encoded keys -> EncodedPk/EncodedSk::try_from, decode_public_key, unlock_private_key (every length 0..130 over several alphabets, near-valid strings); keyring text -> Keyring::new; argument vectors -> the binary (every sequence of <= 3 tokens over a 30-token vocabulary incl. empty and non-UTF-8 arguments, random sequences up to 8; hostile strings wherever a path is expected, under HOME unset / valid / not UTF-8 / empty). Oracles: every call returns (a panic is caught and reported with message and location); the binary exits 0 or 1 without a signal, 1 with an 'Error:' line; hostile header fields raise neither peak heap, nor the largest allocation, nor the bytes pulled from the source, nor the number of scrypt-sized allocations above the honest case + 64 KiB. Non-trivial = input neither empty nor fully valid for its surface; distinct by enumeration index / hash of the case");
     ctx.assume("documented caller preconditions are respected (32-byte keys, 12-byte nonces, N a power of two): violating them is a caller bug, not untrusted input; failure of the output device of the text-printing commands is outside the quantifier");
     let _ = super::c13::ids();
     let fills = |i: usize, s: u64| match i { 0 => Fill::Zeros, 1 => Fill::Ones, 2 => Fill::Random(s), _ => Fill::PrefixOfAuthentic };
@@ -229,5 +264,8 @@ pub fn run(ctx: &Ctx) {
     { let cs: Vec<char> = vsk.chars().collect(); for pos in (0..=cs.len()).step_by(7) { for ch in [' ', '\n', '=', '-'] { let mut v = cs.clone(); v.insert(pos, ch); keyargs.push(KeyArg { s: v.iter().collect(), cmd: (pos % 2) as u8 }); } }
       for l in [0usize, 1, 47, 48, 111, 113, 200] { keyargs.push(KeyArg { s: vsk.chars().cycle().take(l).collect(), cmd: (l % 2) as u8 }); } keyargs.push(KeyArg { s: vpk.clone(), cmd: 0 }); keyargs.push(KeyArg { s: "é".repeat(56), cmd: 1 }); }
     ctx.sse_vec("cli_key_arguments", "malformed and near-valid locked-key strings given to `key extract-pub` / `key change-pass`, and the same strings as the PrivateKey line of the keyring used by `decrypt`", keyargs, check_keyarg);
+    { let d = loc_dictionary(); let mut v = Vec::new(); for loc in &d { for place in 0..4u8 { for home in 0..4u8 { if home > 0 && loc.first() != Some(&b'~') && loc.first() != Some(&b'$') { continue; } for cmd in 0..2u8 { v.push(Loc { loc: loc.clone(), place, home, cmd }); } } } }
+      ctx.sse_vec("path_like_arguments", "a dictionary of 41 hostile or odd strings (~ forms, empty, directories, devices, /proc files, non-UTF-8, 5000 bytes, shell and format metacharacters) as keyring location (-k and KESTREL_KEYRING), input FILE and -o target of complete encrypt / decrypt command lines; ~ and $ forms under HOME unset / valid / not UTF-8 / empty", v, check_loc);
+      ctx.pbt("path_like_arguments_random", ctx.n(1_500, 40_000), || (prop_oneof![proptest::collection::vec(any::<u8>(), 0..20), "[~/.$a-z]{1,12}".prop_map(|s| s.into_bytes()), "\\PC{1,8}".prop_map(|s| s.into_bytes())], 0u8..4, 0u8..4, 0u8..2).prop_map(|(loc, place, home, cmd)| Loc { loc, place, home, cmd }), check_loc); }
     ctx.pbt("argv_random", ctx.n(6_000, 150_000), || (proptest::collection::vec(0usize..VOCAB, 0..9), 0u8..4).prop_map(|(toks, env_keyring)| Argv { toks, env_keyring }), check_argv);
 }
